@@ -3,7 +3,7 @@ sub-objects, assign them, and dump parsed views canonically (deep, by value; flo
 patterns) so that `dump(assigned) == dump(re-read)` is the round-trip oracle.
 
 All srctools imports happen inside functions (common.import_impl() must have run first)."""
-import struct, os, itertools, functools, operator
+import struct, os, itertools, functools, operator, copy
 
 # ---------------------------------------------------------------------------------- configurations
 # name, BSP version, magic, L4D2 lump-header order, layout table name
@@ -155,16 +155,35 @@ def gen_world(rng, cfg_name, size=3, prop_version=None, empty=False):
     # Angle() reduces modulo 360: draw values that are already reduced and exact in binary32
     ang = lambda: Angle(rng.randrange(0, 360 * 64) / 64, rng.randrange(0, 360 * 64) / 64, rng.randrange(0, 360 * 64) / 64)
 
+    def twins(lst, tweak=None, p=0.5, make=copy.copy):
+        """Objects that a too-coarse de-duplication key would merge: for a random element append an EQUAL but
+        distinct object (same field values, sub-objects shared) and, with `tweak`, an object that agrees on the
+        likely key (name / geometry / referenced objects) but differs in the fields `tweak` changes."""
+        if empty or not lst or rng.random() > p:
+            return
+        src = rng.choice(lst)
+        lst.append(make(src))
+        w.twins = getattr(w, 'twins', 0) + 1
+        if tweak is not None and rng.random() < 0.7:
+            t = make(src)
+            tweak(t)
+            lst.append(t)
+
     # --- planes, vertexes, edges
     w.planes = [Plane(fv(), rand_f32(rng), rng.choice(list(PlaneType))) for _ in range(n())]
+    twins(w.planes, lambda t: setattr(t, 'type', rng.choice([x for x in PlaneType if x is not t.type])),
+          make=lambda t: Plane(Vec(t.normal), t.dist, t.type))
     w.vertexes = [fv() for _ in range(n())]
     if w.vertexes and rng.random() < 0.5:
         w.vertexes[rng.randrange(len(w.vertexes))] = Vec(0.0, 0.0, 0.0)
+    twins(w.vertexes, make=lambda v: Vec(v))                 # equal coordinates, distinct vertex
     base_edges = []
     for _ in range(n()):
         a = rng.choice(w.vertexes) if w.vertexes and rng.random() < 0.8 else fv()
         b = rng.choice(w.vertexes) if w.vertexes and rng.random() < 0.8 else fv()
         base_edges.append(Edge(a, b))
+    twins(base_edges, make=lambda e: Edge(e.a, e.b))          # another edge between the same two vertex objects
+    twins(base_edges, make=lambda e: Edge(Vec(e.a), Vec(e.b)))  # equal coordinates, distinct vertexes
     w.surfedges = []
     for _ in range(n() + (len(base_edges) and 1)):
         if not base_edges:
@@ -178,25 +197,41 @@ def gen_world(rng, cfg_name, size=3, prop_version=None, empty=False):
         # names that are suffixes (legitimately share storage), prefixes and infixes of each other
         nm = rng.choice(['brick/wall', 'wall', 'brick', 'brick/w', 'all', 'BRICK/WALL2', 'tools/toolsnodraw', 'a', 'ab', 'b',
                          'dev/' + 'x' * rng.randrange(0, 100), 'w\udc80\udcff'])
-        if nm.casefold() not in [t.casefold() for t in w.textures]:
+        if nm not in w.textures:
             w.textures.append(nm)
+    if w.textures and not empty and rng.random() < 0.4:       # the same name in another case is another name
+        v = rng.choice(w.textures).swapcase()
+        if v not in w.textures:
+            w.textures.append(v)
     texdatas = []
     for _ in range(n()):
         mat = rng.choice(w.textures) if w.textures and rng.random() < 0.6 else 'gen/mat%d' % rng.randrange(1000)
-        if mat.casefold() in [t.mat.casefold() for t in texdatas]:
-            continue
         texdatas.append(TexData(mat, fv(), i32(), i32()))
+    # distinct TexData for the SAME material (same spelling / other case): equal copy, and different size / reflectivity
+    twins(texdatas, lambda t: (setattr(t, 'reflectivity', fv()), setattr(t, 'width', i32()), setattr(t, 'height', i32())),
+          p=0.7, make=lambda t: TexData(t.mat, Vec(t.reflectivity), t.width, t.height))
+    twins(texdatas, lambda t: (setattr(t, 'mat', t.mat.swapcase()), setattr(t, 'width', i32())),
+          make=lambda t: TexData(t.mat, Vec(t.reflectivity), t.width, t.height))
+    w.texdatas = texdatas
     w.texinfo = []
     if texdatas:
         for _ in range(n(1)):
             w.texinfo.append(TexInfo(fv(), rand_f32(rng), fv(), rand_f32(rng), fv(), rand_f32(rng), fv(), rand_f32(rng),
                                      rand_flags(rng, SurfFlags, 31), rng.choice(texdatas)))
+        if not empty and len(texdatas) > 1 and rng.random() < 0.8:      # make sure twin texdata are both referenced
+            for td in texdatas[-2:]:
+                w.texinfo.append(TexInfo(fv(), rand_f32(rng), fv(), rand_f32(rng), fv(), rand_f32(rng), fv(), rand_f32(rng),
+                                         rand_flags(rng, SurfFlags, 31), td))
+        # equal texinfo (distinct object, same TexData) and one differing only in a shift
+        twins(w.texinfo, lambda t: setattr(t, 's_shift', rand_f32(rng)))
 
     # --- primitives
     w.primitives = []
     if not vit:
         for _ in range(n()):
             w.primitives.append(Primitive(rng.random() < 0.5, [u16() for _ in range(n())], [fv() for _ in range(n())]))
+        twins(w.primitives, lambda t: setattr(t, 'is_tristrip', not t.is_tristrip),
+              make=lambda t: Primitive(t.is_tristrip, list(t.indexed_verts), [Vec(v) for v in t.verts]))
 
     def sub_slice(lst, allow_fresh=None):
         """A contiguous slice of lst (shared sub-list), possibly running past the end with fresh objects."""
@@ -239,6 +274,7 @@ def gen_world(rng, cfg_name, size=3, prop_version=None, empty=False):
     if vit:
         if w.texinfo:     # VitaminSource faces always index texinfo
             w.faces = [mk_face(None, rng.choice(w.texinfo), None, False) for _ in range(n())]
+            twins(w.faces, lambda t: setattr(t, 'vitamin_flags', (t.vitamin_flags + 1) % 256))
     else:
         n_orig = n()
         used = {}
@@ -261,6 +297,17 @@ def gen_world(rng, cfg_name, size=3, prop_version=None, empty=False):
                 for o in plan:
                     t, hid = used[id(o)]
                     w.hdr_faces.append(mk_face(o, t, hid, False))
+            if w.faces and rng.random() < 0.5:
+                # an equal split face (distinct object; same plane, edge list, orig face …), kept aligned in hdr_faces
+                k = rng.randrange(len(w.faces))
+                w.faces.append(copy.copy(w.faces[k]))
+                if w.hdr_faces:
+                    w.hdr_faces.append(copy.copy(w.hdr_faces[k]))
+            if rng.random() < 0.5:
+                # an orig face equal to another one but referenced by nobody (so without texinfo / id)
+                o2 = copy.copy(rng.choice(w.orig_faces))
+                o2.texinfo, o2.hammer_id = None, None
+                w.orig_faces.append(o2)
             # ids: position i of faces and hdr_faces must carry the same id -> same orig face per position
             for o in w.orig_faces:
                 if id(o) in used:
@@ -278,8 +325,11 @@ def gen_world(rng, cfg_name, size=3, prop_version=None, empty=False):
             else:
                 sides_pool.append(BrushSide(rng.choice(w.planes), rng.choice(w.texinfo), i16(), rng.random() < 0.5,
                                             rng.choice([0, 2, 0xFFFE, rng.randrange(0, 0x8000) * 2])))
+        twins(sides_pool, lambda t: setattr(t, '_dispinfo', i16()))
         for _ in range(n()):
             w.brushes.append(Brush(rand_flags(rng, BSPContents, 31), sub_slice(sides_pool)))
+        twins(w.brushes, lambda t: setattr(t, 'contents', rand_flags(rng, BSPContents, 31)),
+              make=lambda b: Brush(b.contents, list(b.sides)))      # equal side list, distinct list object
 
     # --- visleafs / nodes
     def ivec(lo, hi):
@@ -300,6 +350,9 @@ def gen_world(rng, cfg_name, size=3, prop_version=None, empty=False):
             bytes(rng.randrange(256) for _ in range(24)) if cfg_name == 'v19' else bytes(24),
             u16(),
         ))
+    twins(w.visleafs, lambda t: setattr(t, 'cluster_id', i16()),
+          make=lambda l: VisLeaf(l.contents, l.cluster_id, l.area, l.flags, Vec(l.mins), Vec(l.maxes), list(l.faces),
+                                 list(l.brushes), l.water_id, l._ambient, l.min_water_dist))
     w.nodes = []
     if w.planes and w.visleafs:
         nn = n()
@@ -313,9 +366,11 @@ def gen_world(rng, cfg_name, size=3, prop_version=None, empty=False):
                     setattr(nd, side, rng.choice(later))
                 else:
                     setattr(nd, side, rng.choice(w.visleafs))
+        twins(w.nodes, lambda t: setattr(t, 'area_ind', i16()))      # equal node (same children), distinct object
 
     # --- water info, visibility, cubemaps, overlays
     w.water_leaf_info = [LeafWaterInfo(rand_f32(rng), rand_f32(rng), rng.choice(w.texinfo)) for _ in range(n())] if w.texinfo else []
+    twins(w.water_leaf_info, lambda t: setattr(t, 'min_z', rand_f32(rng)))
     if empty or rng.random() < 0.25:
         w.visibility = None
     else:
@@ -331,6 +386,7 @@ def gen_world(rng, cfg_name, size=3, prop_version=None, empty=False):
             w.visibility.potentially_visible = [fix(r) for r in w.visibility.potentially_visible]
             w.visibility.potentially_audible = [fix(r) for r in w.visibility.potentially_audible]
     w.cubemaps = [Cubemap(Vec(float(i32()), float(i16()), float(i16())), i32()) for _ in range(n())]
+    twins(w.cubemaps, lambda t: setattr(t, 'size', i32()), make=lambda c_: Cubemap(Vec(c_.origin), c_.size))
     w.overlays = []
     if w.texinfo:
         for _ in range(n()):
@@ -375,6 +431,15 @@ def gen_world(rng, cfg_name, size=3, prop_version=None, empty=False):
         fill_ent(e)
         vmf.add_ent(e)
         ents.append(e)
+    if ents and not empty and rng.random() < 0.5:       # an entity with exactly the same keyvalues and outputs
+        src = rng.choice(ents)
+        e = Entity(vmf)
+        for k_, v_ in src.items():
+            e[k_] = v_
+        for o in src.outputs:
+            e.add_out(o.copy())
+        vmf.add_ent(e)
+        ents.append(e)
     w.ents = vmf
     w.bmodels = None
     if w.nodes:
@@ -392,6 +457,8 @@ def gen_world(rng, cfg_name, size=3, prop_version=None, empty=False):
             if rng.random() < 0.6:
                 if shared is not None and rng.random() < 0.3:
                     bm[e] = shared            # two entities using one brush model
+                elif shared is not None and rng.random() < 0.3:
+                    bm[e] = copy.copy(shared)  # an equal brush model that is a different object (own index)
                 else:
                     bm[e] = shared = mk_bmodel()
         w.bmodels = bm
@@ -435,6 +502,9 @@ def gen_world(rng, cfg_name, size=3, prop_version=None, empty=False):
             s = rand_f32(rng)
             p.scaling = rng.choice([Vec(s, s, s), s])
         w.props.append(p)
+    # equal prop; same prop with the model name in another case (another dictionary entry) / another skin
+    twins(w.props, lambda t: (setattr(t, 'model', t.model.swapcase()), setattr(t, 'skin', i32())))
+    twins(w.overlays, lambda t: setattr(t, 'id', i32()))
 
     # --- detail props
     w.detail_props = []
@@ -450,6 +520,15 @@ def gen_world(rng, cfg_name, size=3, prop_version=None, empty=False):
         else:
             w.detail_props.append(DetailPropShape(*common, rand_f32(rng), dims(), dims(), dims(), dims(),
                                                   rng.random() < 0.5, u8(), u8()))
+    # equal detail prop; same sprite rectangle but other scale / same model in another case
+    def dtweak(t):
+        if isinstance(t, DetailPropModel):
+            t.model = t.model.swapcase()
+        else:
+            t.sprite_scale = rand_f32(rng)
+            if rng.random() < 0.5:
+                t.dims_lower_right = (rand_f32(rng), rand_f32(rng))
+    twins(w.detail_props, dtweak, p=0.7)
     return w
 
 
@@ -610,7 +689,7 @@ class Dumper:
             brush_ents = set(id(e) for e in bm.keys()) if bm is not None else set()
             return ('vmf', self.ent(val.spawn), [self.ent(e, id(e) in brush_ents) for e in val.entities])
         if v == 'textures':
-            return [t.casefold() for t in val]
+            return list(val)        # names differing only in case are different names
         if v == 'texinfo':
             return [self.texinfo(t) for t in val]
         if v == 'planes':
